@@ -59,16 +59,18 @@ def dump_with_h(o):
     from propka.lib import make_tidy_atom_label
     conf = o.mol.conformations[o.mol.conformation_names[0]]
     lines = []
-    prev_chain = None
+    rkey = lambda a: (a.chain_id, a.res_num, a.icode)
+    nplus = {rkey(a) for a in conf.atoms if a.terminal == 'N+'}
+    prev = None
     for i, a in enumerate(conf.atoms):
-        if prev_chain is not None and a.chain_id != prev_chain:
-            lines.append("TER   \n")      # atoms are sorted by chain: keep the chains apart as the input did
-        prev_chain = a.chain_id
+        # the parser starts a new N-terminus only after TER / a terminal oxygen, not at a chain change: write TER exactly
+        # in front of the residues whose nitrogen the original run tagged N+
+        if prev is not None and rkey(a) != prev and rkey(a) in nplus:
+            lines.append("TER   \n")
+        prev = rkey(a)
         lab = make_tidy_atom_label(a.name, a.element)
         l = "%-6s%5d %4s %3s%2s%4d%1s   %8.3f%8.3f%8.3f%6s%6s\n" % (a.type.upper() if a.type != 'atom' else 'ATOM', i + 1, lab, a.res_name, a.chain_id if a.chain_id != '_' else ' ',
                                                                    a.res_num, a.icode or ' ', a.x, a.y, a.z, "1.00", "0.00")
-        if a.terminal == 'C-' or a.name in ("OXT",):
-            pass
         lines.append(l)
     return lines
 
